@@ -392,6 +392,9 @@ def check_family(n, signed, st):
 def _shard(shard, nshards, payload):
     st = Stats()
     cfgs = configs(payload['tier'])
+    if payload.get('o'):
+        # under python -O: every width alone (values that must be rejected on pack included) and the carried integers
+        cfgs = [c for c in cfgs if c['pos'] == 'alone' or (c['pos'].startswith('C') and c['gen'])]
     for i, cfg in enumerate(cfgs):
         if i % nshards != shard:
             continue
@@ -399,7 +402,7 @@ def _shard(shard, nshards, payload):
         check_config(cfg, st, full2)
         if i % 397 == common.SEED % 397:
             st.sample({'class': source(cfg), 'decode_patterns': len(decode_patterns(cfg['n'], full2))})
-    fams = [(n, sg) for n in (1, 2, 3, 4, 8) for sg in (False, True)]
+    fams = [(n, sg) for n in (1, 2, 3, 4, 8) for sg in (False, True)] if not payload.get('o') else []
     for i, (n, sg) in enumerate(fams):
         if i % nshards == shard:
             check_family(n, sg, st)
@@ -408,6 +411,10 @@ def _shard(shard, nshards, payload):
 
 def run(tier):
     st = common.merge_all(common.run_sharded(_shard, {'tier': tier}))
+    from mc import ea_o
+    so = ea_o.run_shard('mc.props.c05', '_shard', {'tier': 'quick', 'o': True})     # every width alone and carried once more under python -O
+    st.merge(so)
+    st.notes.extend(so.notes)
     cov = {
         'states': st.count('outcomes'),
         'transitions': st.n.get('evaluations', 0),
@@ -419,13 +426,13 @@ def run(tier):
                 'decode: all 2^(8n) patterns for n<=2, lane-exhaustive (each byte lane all 256 values, others held at 00/ff/80/7f) above; '
                 'encode: all values n<=2, boundary set above, plus 9 values that must be rejected; three-field neighbourhoods (field at position 0/1/2, '
                 'neighbours Int(1)/Int(2) of the same or the opposite byte order) with the lane patterns thinned; '
-                'states = distinct (width, signedness, byte order, sign class of the value) outcome classes',
+                'states = distinct (width, signedness, byte order, sign class of the value) outcome classes; every width alone and carried once more in child interpreters started with -O',
         'exhaustive': True,
         'bounds': {'widths': sorted({c['n'] for c in configs(tier)}), 'configs': len(configs(tier))},
         'rejected_values_checked': st.n.get('rejected', 0),
         'samples': st.samples,
     }
-    return {'stats': st, 'coverage': cov,
+    return {'stats': st, 'coverage': cov, 'harness_errors': [n for n in st.notes if n.startswith('HARNESS')],
             'assumptions': ["'local' means sys.byteorder of this machine (%s)" % sys.byteorder,
                             'bool values are ints and not in the rejected set']}
 
